@@ -51,3 +51,7 @@ def gen_cases(rng, tier):
     b, d2 = G.shapes_cases(rng.fork("more"), "thorough" if tier == "thorough" else tier)
     d1.update(d2)
     return a + b, d1
+
+
+def monitor(l, impl_rows, kv):
+    return G.ir_monitor(l, impl_rows)
